@@ -8,6 +8,7 @@ pub mod clock;
 pub mod disc_rig;
 pub mod net;
 pub mod reader_rig;
+pub mod sched;
 pub mod writer_rig;
 
 #[cfg(feature = "security")]
